@@ -703,6 +703,12 @@ impl World {
         self.core.clock_base.store(secs, std::sync::atomic::Ordering::SeqCst);
     }
 
+    /// Run the following calls on a real multi-thread tokio runtime with `n` workers
+    /// (0: back to the current-thread runtime).
+    pub fn set_runtime_workers(&self, n: u32) {
+        self.core.runtime_workers.store(n, std::sync::atomic::Ordering::SeqCst);
+    }
+
     /// Storage operations per simulated second.
     pub fn set_clock_div(&self, ops: i64) {
         self.core.clock_div.store(ops, std::sync::atomic::Ordering::SeqCst);
